@@ -5,3 +5,9 @@ SPEC["streams"] = [dict(imports="From Ship Require Import Base Conn ConnMon Pair
                         check_fn="check_pair_spine",
                         drivers=[dict(bin="shipdrv", args=["-prop", "pair"], n_quick=400, n_thorough=8000, timeout=2400)],
                         codes={76: "spine_datagrams_between_two_endpoints_not_exactly_once_in_order"})]
+
+# over the real transport: two ShipConnections on real websocket connections (loopback), bursts of 100-1500 datagrams of
+# 40 B / 2 KB / 16 KB in both directions while the receiving application blocks for 0-800 ms (full socket buffers and write queue)
+SPEC["streams"] += [dict(imports="From Ship Require Import Base RegRace.", case_type="e2e_case", check_fn="check_e2e",
+                         drivers=[dict(bin="shipdrv", args=["-prop", "e2e"], n_quick=24, n_thorough=400, timeout=2400)],
+                         codes={178: "datagrams_over_real_websocket_not_exactly_once_in_order"})]
